@@ -123,7 +123,13 @@ func (s *JSchema) Example() (b []byte, err error) {
 		return nil, kit.NewJSchemaError(s.File, errs.ErrEmptySchema.F())
 	}
 
-	return newExampleBuilder(s.Inner.TypesList()).Build(s.Inner.RootNode())
+	b, err = newExampleBuilder(s.Inner.TypesList()).Build(s.Inner.RootNode())
+	if err == nil && b == nil {
+		// The root is a reference to a type which refers to nothing but itself:
+		// the recursion cut-off left nothing to return.
+		return nil, kit.NewJSchemaError(s.File, errs.ErrInfiniteRecursionDetected.F(s.File.Name()))
+	}
+	return b, err
 }
 
 func (s *JSchema) AddType(name string, sc schema.Schema) (err error) {
